@@ -559,7 +559,7 @@ def main():
 
     # ---- (2a) matvec kernels
     if run.want('matvec'):
-        mcfgs = [(2, (2, 2), ((2, 2), (2, 3))), (3, (2, 1, 2), ((2, 2), (1, 2), (2, 2)))]
+        mcfgs = [(2, (2, 2), ((2, 2), (2, 3))), (3, (2, 1, 2), ((2, 2), (1, 2), (2, 2))), (3, (1, 2, 2), ((2, 1), (1, 2), (3, 2)))]      # last: non-square innermost block
         if thorough:
             mcfgs += [(2, (3, 2), ((3, 2), (2, 3))), (3, (2, 2, 2), ((2, 2), (2, 2), (2, 2)))]
         for dim, nnz, cbs in mcfgs:
